@@ -406,16 +406,10 @@ theorem addXmd_spec (s : HState) (e : Nat) (x : Xmd) (ex : Exec) (h : s.execs[e]
     ∃ ex', (addXmd s e x).execs[e]? = some ex' ∧ ex'.backend = ex.backend ∧ ex'.job = ex.job ∧
       ex'.found = ex.found ∧ effXmd (addXmd s e x) ex' = ainsertAll (effXmd s ex) x ∧
       (addXmd s e x).reg = s.reg ∧ (addXmd s e x).ns = s.ns := by
-  by_cases hs : ex.xmdShared = true
-  · have e1 : addXmd s e x = { s with sharedXmd := ainsertAll s.sharedXmd x } := by
-      unfold addXmd; simp only [h, hs, if_true]
-    rw [e1]
-    exact ⟨ex, h, rfl, rfl, rfl, by simp [effXmd, hs], rfl, rfl⟩
-  · have hs' : ex.xmdShared = false := by simpa using hs
-    have e1 : addXmd s e x = { s with execs := s.execs.set e { ex with xmdOwn := ainsertAll ex.xmdOwn x } } := by
-      unfold addXmd; simp only [h, hs', Bool.false_eq_true, if_false]
-    rw [e1]
-    exact ⟨_, getElem?_set_self' _ _ _ _ h, rfl, rfl, rfl, by simp [effXmd, hs'], rfl, rfl⟩
+  have e1 : addXmd s e x = { s with execs := s.execs.set e { ex with xmd := ainsertAll ex.xmd x } } := by
+    unfold addXmd; simp only [h]
+  rw [e1]
+  exact ⟨_, getElem?_set_self' _ _ _ _ h, rfl, rfl, rfl, rfl, rfl, rfl⟩
 
 theorem alookup_xadd_congr (x₁ x₂ xadd : Xmd) (kind : String)
     (h : kind ∉ akeys xadd → alookup x₁ kind = alookup x₂ kind) :
@@ -465,8 +459,8 @@ theorem xmdClean_iff (p : Probe) (x : Xmd) :
   simp [xmdClean, List.all_eq_true, Option.isNone_iff_eq_none]
 
 theorem cleanNew_iff (D : Defaults) (p : Probe) (s : HState) :
-    cleanNew D p s = true ↔ regCleanNew D p s = true ∧ nsClean p s = true ∧ xmdClean p s.sharedXmd = true := by
-  simp [cleanNew, Bool.and_eq_true, and_assoc]
+    cleanNew D p s = true ↔ regCleanNew D p s = true ∧ nsClean p s = true := by
+  simp [cleanNew, Bool.and_eq_true]
 
 theorem alookup_defaultsReg_of_not_mem (D : Defaults) (b : Backend) (k : Key) (h : k ∉ dkeys D b) :
     alookup (defaultsReg D b) k = none := by
@@ -490,7 +484,6 @@ theorem reachedStage_some (s : HState) (ex : Exec) (md : List MdItem) (r : TRes)
 
 theorem stepO_translate_fields (D : Defaults) (s : HState) (e : Nat) (q : Query) (md : List MdItem) (r : TRes)
     (ex : Exec) (h : s.execs[e]? = some ex) :
-    (stepO D s (.translate e q md r)).sharedXmd = s.sharedXmd ∧
     (stepO D s (.translate e q md r)).ns = (mdOf s ex md).1.ns ∧
     (stepO D s (.translate e q md r)).reg =
       (if reachedStage s ex md r = some .done then defaultsReg D ex.backend else (mdOf s ex md).1.reg) ∧
@@ -513,13 +506,12 @@ theorem lt_length_of_getElem? {α} (l : List α) (e : Nat) (x : α) (h : l[e]? =
   · exact h'
   · rw [List.getElem?_eq_none h'] at h; cases h
 
-theorem effXmd_congr (s s' : HState) (ex ex' : Exec) (h1 : s'.sharedXmd = s.sharedXmd)
-    (h2 : ex'.xmdShared = ex.xmdShared) (h3 : ex'.xmdOwn = ex.xmdOwn) : effXmd s' ex' = effXmd s ex := by
-  unfold effXmd; rw [h1, h2, h3]
+theorem effXmd_congr (s s' : HState) (ex ex' : Exec) (h3 : ex'.xmd = ex.xmd) : effXmd s' ex' = effXmd s ex := by
+  unfold effXmd; rw [h3]
 
 theorem execAfter_xmd (ex : Exec) (st : Stage) (sp : List Spec) (h : st ≠ .done) :
-    (execAfter ex st sp).xmdShared = ex.xmdShared ∧ (execAfter ex st sp).xmdOwn = ex.xmdOwn := by
-  cases st <;> first | exact ⟨rfl, rfl⟩ | exact absurd rfl h
+    (execAfter ex st sp).xmd = ex.xmd := by
+  cases st <;> first | rfl | exact absurd rfl h
 
 theorem execAfter_job (ex : Exec) (st : Stage) (sp : List Spec) :
     (execAfter ex st sp).job = match st with
@@ -534,12 +526,12 @@ theorem stepO_length (D : Defaults) (s : HState) (o : OpO) :
     simp only [stepO, addXmd]
     cases he : s.execs[e]? with
     | none => simp
-    | some ex => by_cases hs : ex.xmdShared = true <;> simp [hs]
+    | some ex => simp
   | translate e q md r =>
     cases he : s.execs[e]? with
     | none => rw [stepO_translate_noExec D s e q md r he]; simp
     | some ex =>
-      obtain ⟨_, _, _, fe⟩ := stepO_translate_fields D s e q md r ex he
+      obtain ⟨_, _, fe⟩ := stepO_translate_fields D s e q md r ex he
       rw [fe]
       cases reachedStage s ex md r <;> simp
 
